@@ -225,3 +225,59 @@ def cases(tier):
 ASSUMPTIONS = ["masters x slaves grid 1..3 x 1..3 (quick: 5 shapes), three region sets incl. adjacent and non power-of-two sized windows, 30-bit word addresses",
                "fairness (a requester is granted after at most n-1 grant changes) is proved on the Arbiter; inside the interconnects it follows by composition (paper)",
                "register=True read data is proved for slaves that do not answer in the first cycle of a request; the first-cycle case is a listed known finding"]
+
+# ---- the interconnect SoCBusHandler.do_finalize builds from add_master / add_slave (selection p2p / shared / crossbar, decoders, timeout wiring)
+def c_handler_finalize(scenario):
+    from litex.gen import LiteXModule
+    """routing by address on the interconnect the REAL SoCBusHandler builds: a slave sees a cycle only for addresses of its window, an address
+    that matches no region is presented to no slave and is terminated exactly once (bus time-out) so that the master is not stuck"""
+    import sys
+    from litex.soc.integration.soc import SoCBusHandler, SoCIORegion
+    from contracts import wblib
+    nm, slaves, ic = {"1x1@nonzero": (1, [(0x1000_0000, 0x1000)], "shared"), "1x1@0": (1, [(0x0000_0000, 0x1000)], "shared"), "1x1@0,full": (1, [(0x0000_0000, 0x1_0000_0000)], "shared"),
+                      "2x2,shared": (2, [(0x1000_0000, 0x1000), (0x2000_0000, 0x800)], "shared"), "2x2,crossbar": (2, [(0x1000_0000, 0x1000), (0x2000_0000, 0x800)], "crossbar")}[scenario]
+    TO = 4
+    class Top(LiteXModule):
+        def __init__(self):
+            self.bus = bus = SoCBusHandler(standard="wishbone", data_width=32, address_width=32, timeout=TO, interconnect=ic, interconnect_register=False)
+            self.ms = [wishbone.Interface(data_width=32, address_width=32, addressing="word") for _ in range(nm)]
+            self.ss = [wishbone.Interface(data_width=32, address_width=32, addressing="word") for _ in slaves]
+            for i, m in enumerate(self.ms): bus.add_master(f"m{i}", m)
+            for i, (s_, (o, sz)) in enumerate(zip(self.ss, slaves)): bus.add_slave(f"s{i}", s_, SoCRegion(origin=o, size=sz))
+    d = mk(Top); d.bus.finalize() if not d.bus.finalized else None
+    if sys.stderr is None: sys.stderr = sys.__stderr__
+    ins = []
+    for m in d.ms: ins += wblib.m_inputs(m)
+    for s_ in d.ss: ins += wblib.s_inputs(s_)
+    h = HwCheck(f"SoCBusHandler.finalize({scenario})", d, ins)
+    for i, m in enumerate(d.ms): wblib.master_holds(h, m, f"m{i}")
+    for i, s_ in enumerate(d.ss): wblib.slave_legal(h, s_, f"s{i}")
+    V = h.v
+    def inwin(adr, o, sz):                                   # word address inside the power-of-two window of the region
+        p2 = 1 << (sz - 1).bit_length()
+        return z3.And(z3.UGE(zx(adr, 34) << 2, K(o, 34)), z3.ULT(zx(adr, 34) << 2, K(o + p2, 34)))
+    for k, (s_, (o, sz)) in enumerate(zip(d.ss, slaves)):
+        srq = wblib.req(h, s_)
+        h.ensure(f"ens.route.s{k}", z3.Implies(srq, z3.Or(*[z3.And(wblib.req(h, m), V(m.adr) == V(s_.adr) if True else True, inwin(V(m.adr), o, sz)) for m in d.ms])))   # presented only for addresses of its window, by a requesting master
+    if nm == 1:
+        m = d.ms[0]; unm = z3.And(wblib.req(h, m), *[z3.Not(inwin(V(m.adr), o, sz)) for (o, sz) in slaves])
+        h.ensure("ens.unmapped.no-slave", z3.Implies(unm, z3.Not(z3.Or(*[wblib.req(h, s_) for s_ in d.ss]))))
+        h.respond("resp.unmapped.terminated", unm, z3.And(b(V(m.ack))), TO + 3, start=unm)       # the bus time-out answers: the master is never stuck
+        mapped = [z3.And(wblib.req(h, m), inwin(V(m.adr), o, sz)) for (o, sz) in slaves]
+        for k, s_ in enumerate(d.ss): h.ensure(f"ens.mapped.s{k}", z3.Implies(mapped[k], z3.And(wblib.req(h, s_), V(m.ack) == V(s_.ack) if TO is None else z3.Implies(b(V(s_.ack)), b(V(m.ack))))))
+    if scenario == "1x1@0":
+        # one master, one slave at origin 0 whose region is SMALLER than the address space: do_finalize picks InterconnectPointToPoint (no decoder, no time-out)
+        what = ("SoCBusHandler.do_finalize uses InterconnectPointToPoint whenever there is one master and one slave at origin 0, whatever the region's size: addresses beyond "
+                "the region (0x1000 and up for a 4 KiB region) are presented to the slave and there is no bus time-out, although they match no region")
+        for n_ in ("ens.route.s0", "ens.unmapped.no-slave"):
+            h.finding("finding.p2p-no-decode." + n_.split(".", 1)[1], h.ensures.pop(n_), what)
+        h.responds.pop("resp.unmapped.terminated", None)
+    h.use_auto = True
+    h.cover("cover.access", z3.Or(*[z3.And(wblib.req(h, s_), b(V(s_.ack))) for s_ in d.ss]), depth=4)
+    h.bmc_depth = TO + 6
+    h.functions = ["litex.soc.integration.soc.SoCBusHandler.do_finalize (interconnect selection, decoders, time-out)", "litex.soc.integration.soc.SoCBusHandler.add_master/add_slave"]
+    return h
+
+_cases_c06 = cases
+def cases(tier):
+    return _cases_c06(tier) + [Case(f"SoCBusHandler.finalize({sc})", c_handler_finalize, sc) for sc in ("1x1@nonzero", "1x1@0", "1x1@0,full", "2x2,shared", "2x2,crossbar")]
